@@ -57,11 +57,18 @@ pub fn gen_stat_spec(rng: &mut Rng, is_f64: bool) -> Option<(ProblemSpec, &'stat
             // observations in tiny units with the usual 1/sigma weights (which are then huge): the
             // weighted problem is of unit scale, the linear coefficients and their variances are not
             let span = if is_f64 { 60.0 } else { 23.0 };
-            let f = 10f64.powf(-rng.range(3.0, span).round());
+            let k = rng.range(3.0, span).round();
+            let f = 10f64.powf(-k);
             spec.y = spec.y.scale(f);
             let n = spec.y.r;
             let w0 = spec.w.clone().unwrap_or_else(|| vec![1.0; n]);
-            spec.w = Some(w0.iter().map(|v| v / f).collect());
+            // weights between 1 and 1/f (rescaled 1/sigma); in f32 the squares of the weighted
+            // quantities must stay inside the range of the type, which caps the weights at 1e14
+            // and the weighted data must stay above 1e-12 (their squares enter H^T H and chi^2)
+            let glo = if is_f64 { 0.0 } else { (k - 12.0).max(0.0) };
+            let gexp = rng.range(glo, k).round().clamp(glo, if is_f64 { 140.0 } else { 14.0 });
+            let g = 10f64.powf(gexp);
+            spec.w = Some(w0.iter().map(|v| v * g).collect());
             return Some((spec, "tiny units with compensating 1/sigma weights"));
         }
         let span = if is_f64 { 19.0 } else { 5.0 };
